@@ -919,6 +919,45 @@ def r10_6(prog, chk):
     chk.floor("R10.6", n, 1)
 
 
+def r10_6b(prog, chk):
+    """R10.6b - a public setter of a search parameter invalidates the memorised neighbourhood.  ANeigh::select() returns the
+    memorised ranks when the same target is asked again; a setter that changes a member the search reads (nmaxi, nmini, sectors,
+    width ...) must call setIsChanged() / reset(), else the next answer is the one computed with the old parameter."""
+    import c08_order
+    eff = c08_order.Effects(prog)
+    n = 0
+    for K in ("NeighMoving", "NeighBench", "NeighCell", "NeighImage", "NeighUnique"):
+        gn = [f for f in prog.fns(K + "::getNeigh") if f.body is not None]
+        if not gn:
+            continue
+        R, W = eff.rw(gn[0])
+        inputs = {a.split("::", 1)[1] for a in R if a.startswith(K + "::")}
+        for f in sorted(prog.funcs, key=lambda x: (x.file, x.line)):
+            if f.cls != K or f.body is None or f.kind != "method" or not f.short.startswith("set") or f.d.get("const"):
+                continue
+            written = set()
+            for x in f.walk():
+                if x["k"] in ("Assign", "OpCall") and (x.get("op") or "").endswith("=") and x.get("op") not in ("==", "!=", "<=", ">=") and x.get("c"):
+                    l = x["c"][0]
+                    while l is not None and l["k"] in ("Index", "Cast"):
+                        l = l["c"][0]
+                    if l is not None and l["k"] == "MemberExpr" and l.get("mk") == "field" and (not l.get("c") or l["c"][0] is None or l["c"][0]["k"] == "This"):
+                        written.add(l["n"])
+            touched = written & inputs
+            if not touched:
+                continue
+            n += 1
+            chk.analysed(f)
+            resets = any(c["k"] == "MCall" and (c.get("callee") or "").split("::")[-1] in ("setIsChanged", "reset") and
+                         (call_obj(c) is None or call_obj(c)["k"] == "This") for c in f.calls()) or \
+                any(c["k"] == "MCall" and (c.get("callee") or "").split("::")[-1] == "clear" and show(call_obj(c)) == "_nbghMemo" for c in f.calls())
+            chk.ob("R10.6b", "%s: changing %s invalidates the memorised neighbourhood" % (f.name, ", ".join(sorted(touched))), f.loc(), resets,
+                   detail=None if resets else "the search reads %s; the setter leaves the memo of the previous target in place: asking the same target again "
+                   "returns the neighbourhood computed with the old value" % ", ".join(sorted(touched)),
+                   key="R10.6b|%s|%s" % (f.name, "+".join(sorted(touched))))
+    chk.floor("R10.6b", n, 4)
+
+
 def r10_8(prog, chk, classes=("Vario",)):
     """R10.8 - a calculation entry point starts from scratch.  Members that the methods of the class ACCUMULATE into
     (`m[..] += x`) must be reset (fill / assign / clear / whole assignment; a plain resize() keeps the old content) on every
@@ -1118,6 +1157,7 @@ def r10_7(prog, chk, tier, units_done):
     cprog.load_dir(dh)
     n = copyrule.copy_agreement(cprog, chk, "R10.7", accepted=R107_ACCEPTED)
     chk.floor("R10.7", n, 700)
+    r10_6b(cprog, chk)
 
 
 def main(tier):
